@@ -134,8 +134,10 @@ def intattr(repo, chk):
             elif isinstance(a, ast.Subscript) and src(a.value) == 'self.page_size':
                 ok = True          # annotated list[int, int]; from_pagexml / from_altoxml build it with int()
             elif isinstance(a, ast.Name):
+                inl = flow.inline(a, c)
                 ds = flow.defs_reaching(a.id, c)
-                ok = bool(ds) and all(d.value is not None and isinstance(d.value, ast.Call) and dotted(d.value.func) == 'int' for d in ds)
+                ok = (isinstance(inl, ast.Call) and dotted(inl.func) == 'int') or \
+                    (bool(ds) and all(d.value is not None and isinstance(d.value, ast.Call) and dotted(d.value.func) == 'int' for d in ds))
         elif isinstance(v, ast.Call) and isinstance(v.func, ast.Attribute) and v.func.attr == 'format' and const_str(v.func.value) == '{}' and v.args:
             a = v.args[0]
             ok = isinstance(a, ast.Call) and dotted(a.func) == 'int'
@@ -164,7 +166,10 @@ def cdep(repo, chk):
     chk.ob('CDEP', fi, rem[0], 'a line is removed only when its confidence is known', nonnull, construct='removal needs a confidence')
     chk.ob('CDEP', fi, rem[0], 'a line is removed only when its confidence is strictly below the requested minimum', strict,
            'tests: %s' % [(' '.join(src(t).split()), p) for t, p in gs if 'confidence' in src(t)], construct='removal condition')
-    ok = src(rem[0].func.value) == 'text_block' and src(rem[0].args[0]) == 'text_line'
+    recv = src(rem[0].func.value)
+    made = fi.flow.inline(rem[0].args[0], rem[0], stop={recv})
+    ok = isinstance(made, ast.Call) and (call_name(made) or '').endswith('SubElement') and len(made.args) >= 2 and src(made.args[0]) == recv \
+        and const_str(made.args[1]) == 'TextLine'
     chk.ob('CDEP', fi, rem[0], 'what is removed is the current line from its own block', ok, construct='removal target')
 
 
@@ -199,12 +204,13 @@ def accseed(repo, chk):
         return None
     n = 0
     for s in loop.body:
-        if isinstance(s, ast.Assign) and isinstance(s.targets[0], ast.Name) and isinstance(s.value, ast.Call) and dotted(s.value.func) in ('max', 'min'):
+        if isinstance(s, ast.Assign) and isinstance(s.targets[0], ast.Name) and s.targets[0].id in seeds:
             acc = s.targets[0].id
-            if acc not in seeds:
+            val = fi.flow.inline(s.value, s, stop=set(seeds))
+            if not (isinstance(val, ast.Call) and dotted(val.func) in ('max', 'min')):
                 continue
-            kind = dotted(s.value.func)
-            ops = s.value.args[0].elts if len(s.value.args) == 1 and isinstance(s.value.args[0], (ast.List, ast.Tuple)) else s.value.args
+            kind = dotted(val.func)
+            ops = val.args[0].elts if len(val.args) == 1 and isinstance(val.args[0], (ast.List, ast.Tuple)) else val.args
             carried = [o for o in ops if any(isinstance(x, ast.Name) and x.id in seeds for x in ast.walk(o))]
             fresh = [o for o in ops if o not in carried]
             need(carried and fresh, 'accumulator %s: cannot split carried / new operand' % acc)
